@@ -88,8 +88,19 @@ func c20fixture(c *Ctx, rng *rand.Rand) (*model.Batch, *model.Seg, []byte, bool)
 		c.R.Fail("mem-decref", "in-memory DecRef: %v", err)
 	}
 	sampleRead(c.R, "in-memory after AddRef/DecRef", s, m, rng)
+	filled := zx.SynCacheLen(s)
 	if err := s.Close(); err != nil {
 		c.R.Fail("mem-close", "in-memory Close: %v", err)
+	}
+	// "releases its caches": the synonym cache is observable through the hook
+	// (the vector cache through the engine monitor)
+	if len(m.Thes) > 0 {
+		if filled <= 0 {
+			c.R.Fail("harness", "fixture: thesaurus lookups left the synonym cache empty (%d)", filled)
+		} else if n := zx.SynCacheLen(s); n != 0 {
+			c.R.Fail("cache-not-released", "in-memory Close left %d thesauri in the synonym cache", n)
+		}
+		c.R.Inc("synonym_cache_release_checked", 1)
 	}
 	// "harmless": dictionaries, postings, stored fields and doc values of an
 	// in-memory segment are still there after Close (only its caches go)
@@ -169,6 +180,16 @@ func c20seq(c *Ctx) {
 			}
 			if refs == 0 && (mp || fd != 0) {
 				c.R.Fail("not-released", "%s: after the final release mapped=%v fds=%d", id, mp, fd)
+			}
+			if len(m.Thes) > 0 {
+				n := zx.SynCacheLen(seg)
+				if refs > 0 && n <= 0 {
+					c.R.Fail("cache-released-early", "%s: after op %d (%c) count %d > 0 but the synonym cache was dropped (%d)", id, k, s[k], refs, n)
+				}
+				if refs == 0 && n != 0 {
+					c.R.Fail("cache-not-released", "%s: after the final release the synonym cache still holds %d thesauri", id, n)
+				}
+				c.R.Inc("synonym_cache_release_checked", 1)
 			}
 			c.R.Inc("proc_inspections", 1)
 		}
